@@ -23,7 +23,11 @@ def jobs(tier, kinds=("lang",), n_quick=5, n_thorough=7, algos=("lane", "lr1", "
     for g in base.base_grammars():
         if not stretch and getattr(g, "min_n", 0) > n:
             continue
+        if getattr(g, "heavy", False) and tuple(kinds) != ("lang",):
+            continue
         for algo in algos:
+            if getattr(g, "heavy", False) and tier == "quick" and algo != "lr1":
+                continue        # heavy grammars: one configuration in the quick tier
             if algo == "lalr" and g.not_lalr:
                 continue
             for s in g.pub_nts():
